@@ -1134,9 +1134,21 @@ func (c *Corpus) EnumerateSingleBlob(fn func(camtypes.BlobMeta) bool, br blob.Re
 // have one of the provided camliNodeType values, calling fn for each. If fn returns false,
 // enumeration ends.
 func (c *Corpus) EnumeratePermanodesByNodeTypes(fn func(camtypes.BlobMeta) bool, camliNodeTypes []string) {
+	// A permanode is in the set of every node type it ever had, and
+	// camliNodeTypes may repeat a type: send each permanode only once.
+	var sent map[blob.Ref]bool
+	if len(camliNodeTypes) > 1 {
+		sent = make(map[blob.Ref]bool)
+	}
 	for _, t := range camliNodeTypes {
 		set := c.permanodesSetByNodeType[t]
 		for br := range set {
+			if sent != nil {
+				if sent[br] {
+					continue
+				}
+				sent[br] = true
+			}
 			if bm := c.blobs[br]; bm != nil {
 				if !fn(*bm) {
 					return
